@@ -124,6 +124,9 @@ theorem unique_kernel_discovery_order (col : List Bytes) (ri rv rc : Bool) :
     getIndexedStringUnique (encode col).1 (encode col).2 ri rv rc = .ok (discOut ri rv rc col) :=
   getIndexedStringUnique_encode ri rv rc col
 
+example : discOut true true true [[98], [99], [97], [98]]
+    = ⟨[[98], [99], [97]], some [0, 1, 2], some [0, 1, 2, 0], some [2, 1, 1]⟩ := by decide
+
 /-! ### what the Spec's four results are, in the words of the property (any ordered value type) -/
 
 section
@@ -224,5 +227,11 @@ theorem apply_isin_plain_delegates {α : Type} (npIsin : List α → Option (Lis
 theorem apply_unique_plain_delegates {α : Type} (npUnique : List α → Bool → Bool → Bool → UniqueResult α)
     (ofBytes : Bytes → α) (data : List α) (ri rv rc : Bool) :
     applyUnique npUnique ofBytes (.plain data) ri rv rc = .ok (npUnique data ri rv rc) := rfl
+
+example : ∃ r, applyUnique (refNpUnique bytesLe) id
+      (.indexed (encode [[98], [], [195, 169], [98]]).1 (encode [[98], [], [195, 169], [98]]).2) false true true = .ok r ∧
+    r.uniques = [[], [98], [195, 169]] ∧ r.index = none ∧ r.inverse = some [1, 0, 2, 1] ∧ r.counts = some [1, 2, 1] := by
+  refine ⟨_, unique_eq_spec_partial _ (by simp [NoTrailingNul]) false true true, ?_⟩
+  decide
 
 end Exetera.Props.C14
